@@ -330,6 +330,7 @@ Variables left right : Z.
 Variable rv : bool.
 Variable traj : list conf.
 Variable code : Z.
+Variable strict : bool.    (* the failure test on the return code (PollM.exit_failed) *)
 
 Notation own_from := (own_stream_from ord rv).
 Notation runf := (run_frames fx left right).
@@ -342,15 +343,15 @@ Proof. reflexivity. Qed.
 Definition same_outcome (r : poll_result) (s : sres) : Prop :=
   match r, s with
   | Ret p b _, SStop p' b' => p = p' /\ b = b'
-  | Trunc p _, SMore p' => p = p' /\ code = 0
-  | Raise p _, SMore p' => p = p' /\ code <> 0
+  | Trunc p _, SMore p' => p = p' /\ exit_failed strict code = false
+  | Raise p _, SMore p' => p = p' /\ exit_failed strict code = true
   | IdxError, SErr => True
   | _, _ => False
   end.
 
-Lemma fell_through_outcome : forall p, same_outcome (fell_through code p) (SMore p).
+Lemma fell_through_outcome : forall p, same_outcome (fell_through code strict p) (SMore p).
 Proof.
-  intros p. unfold fell_through. destruct (Z.eqb_spec code 0); cbn; auto.
+  intros p. unfold fell_through. destruct (exit_failed strict code) eqn:E; cbn; auto.
 Qed.
 
 (* what every poller guarantees when it RETURNS NORMALLY WITH A STOP, derived from
@@ -393,7 +394,7 @@ Definition vmax (reads : list (nat * bool)) : nat := fold_right (fun cb m => Nat
 
 Lemma lmp_polls_fixed : forall reads rd p,
   Forall (fun cb => (fst cb <= length traj)%nat) reads -> (rd <= length traj)%nat ->
-  same_outcome (lmp_polls fx ord left right rv traj code true reads rd [] [] p rd)
+  same_outcome (lmp_polls fx ord left right rv traj code strict true reads rd [] [] p rd)
                (runf p (own_from rd (skipn rd (firstn (Nat.max rd (vmax reads)) traj)))).
 Proof.
   induction reads as [|[c alive] rest IH]; intros rd p HF Hrd.
@@ -418,7 +419,7 @@ Qed.
    is the stop rule applied to the own-data frames of the prefix that was ever visible *)
 Theorem lammps_fixed_any_schedule : forall p0 reads,
   Forall (fun cb => (fst cb <= length traj)%nat) reads ->
-  same_outcome (lammps_run fx ord left right rv traj code true p0 false reads)
+  same_outcome (lammps_run fx ord left right rv traj code strict true p0 false reads)
                (runf p0 (own_stream ord rv (firstn (vmax reads) traj))).
 Proof.
   intros p0 reads HF. unfold lammps_run. cbn [andb].
@@ -427,20 +428,20 @@ Proof.
 Qed.
 
 Lemma lammps_run_dead : forall fixL2 p0 reads,
-  lammps_run fx ord left right rv traj code fixL2 p0 true reads =
-  if code =? 0 then lammps_run fx ord left right rv traj code fixL2 p0 false reads
-  else Raise p0 (PExited code).
-Proof. intros. unfold lammps_run. cbn [andb]. destruct (code =? 0); reflexivity. Qed.
+  lammps_run fx ord left right rv traj code strict fixL2 p0 true reads =
+  if exit_failed strict code then Raise p0 (PExited code)
+  else lammps_run fx ord left right rv traj code strict fixL2 p0 false reads.
+Proof. intros. unfold lammps_run. cbn [andb]. destruct (exit_failed strict code); reflexivity. Qed.
 
 (* a normal return with a stop is the stop-rule prefix of the full trajectory *)
 Theorem lammps_returns_prefix : forall p0 dead reads p s ps,
   Forall (fun cb => (fst cb <= length traj)%nat) reads ->
-  lammps_run fx ord left right rv traj code true p0 dead reads = Ret p s ps ->
+  lammps_run fx ord left right rv traj code strict true p0 dead reads = Ret p s ps ->
   runf p0 (own_stream ord rv traj) = SStop p s.
 Proof.
   intros p0 dead reads p s ps HF H.
   destruct dead.
-  - rewrite lammps_run_dead in H. destruct (code =? 0); [|discriminate].
+  - rewrite lammps_run_dead in H. destruct (exit_failed strict code); [discriminate|].
     eapply same_outcome_ret_full; [apply lammps_fixed_any_schedule; exact HF|exact H].
   - eapply same_outcome_ret_full; [apply lammps_fixed_any_schedule; exact HF|exact H].
 Qed.
@@ -448,7 +449,7 @@ Qed.
 (* the whole trajectory was visible at some poll: the outcome does not depend on the schedule *)
 Theorem lammps_schedule_independent : forall p0 reads,
   Forall (fun cb => (fst cb <= length traj)%nat) reads -> vmax reads = length traj ->
-  same_outcome (lammps_run fx ord left right rv traj code true p0 false reads)
+  same_outcome (lammps_run fx ord left right rv traj code strict true p0 false reads)
                (runf p0 (own_stream ord rv traj)).
 Proof.
   intros p0 reads HF HV. pose proof (lammps_fixed_any_schedule p0 reads HF) as H.
@@ -457,42 +458,43 @@ Qed.
 
 (* failure_raises / terminated_at_end, for both variants of the pairing and ANY schedule *)
 Lemma lmp_polls_trunc : forall fixL2 reads rd tr bx p step q ps,
-  lmp_polls fx ord left right rv traj code fixL2 reads rd tr bx p step = Trunc q ps -> code = 0.
+  lmp_polls fx ord left right rv traj code strict fixL2 reads rd tr bx p step = Trunc q ps ->
+  exit_failed strict code = false.
 Proof.
   intros fixL2. induction reads as [|[c alive] rest IH]; intros rd tr bx p step q ps H.
-  - cbn in H. unfold fell_through in H. destruct (Z.eqb_spec code 0); [assumption|discriminate].
+  - cbn in H. unfold fell_through in H. destruct (exit_failed strict code); [discriminate|reflexivity].
   - cbn [lmp_polls] in H.
     destruct (lmp_for _ _ _ _ _ _ _ _ _ _ _); try discriminate. eapply IH; exact H.
 Qed.
 
 Lemma lmp_polls_pstate : forall fixL2 reads rd tr bx p step,
-  pstate_of (lmp_polls fx ord left right rv traj code fixL2 reads rd tr bx p step) <> Some PRunning /\
-  pstate_of (lmp_polls fx ord left right rv traj code fixL2 reads rd tr bx p step) <> Some PNone.
+  pstate_of (lmp_polls fx ord left right rv traj code strict fixL2 reads rd tr bx p step) <> Some PRunning /\
+  pstate_of (lmp_polls fx ord left right rv traj code strict fixL2 reads rd tr bx p step) <> Some PNone.
 Proof.
   intros fixL2. induction reads as [|[c alive] rest IH]; intros rd tr bx p step.
-  - cbn. unfold fell_through. destruct (code =? 0); cbn; split; discriminate.
+  - cbn. unfold fell_through. destruct (exit_failed strict code); cbn; split; discriminate.
   - cbn [lmp_polls].
     destruct (lmp_for _ _ _ _ _ _ _ _ _ _ _); cbn; try (split; discriminate); [|apply IH].
     destruct alive; cbn; split; discriminate.
 Qed.
 
 Theorem lammps_failure_raises : forall fixL2 p0 dead reads,
-  code <> 0 ->
-  match lammps_run fx ord left right rv traj code fixL2 p0 dead reads with
+  exit_failed strict code = true ->
+  match lammps_run fx ord left right rv traj code strict fixL2 p0 dead reads with
   | Trunc _ _ => False     (* never a normal return without a stop *)
   | _ => True
   end.
 Proof.
   intros fixL2 p0 dead reads Hc.
-  destruct (lammps_run fx ord left right rv traj code fixL2 p0 dead reads) eqn:E; auto.
-  unfold lammps_run in E. destruct (dead && negb (code =? 0)); [discriminate|].
-  apply lmp_polls_trunc in E. contradiction.
+  destruct (lammps_run fx ord left right rv traj code strict fixL2 p0 dead reads) eqn:E; auto.
+  unfold lammps_run in E. destruct (dead && exit_failed strict code); [discriminate|].
+  apply lmp_polls_trunc in E. congruence.
 Qed.
 
 Theorem lammps_terminated_at_end : forall fixL2 p0 dead reads,
-  pstate_of (lammps_run fx ord left right rv traj code fixL2 p0 dead reads) <> Some PRunning.
+  pstate_of (lammps_run fx ord left right rv traj code strict fixL2 p0 dead reads) <> Some PRunning.
 Proof.
-  intros. unfold lammps_run. destruct (dead && negb (code =? 0)); [cbn; discriminate|].
+  intros. unfold lammps_run. destruct (dead && exit_failed strict code); [cbn; discriminate|].
   apply lmp_polls_pstate.
 Qed.
 
@@ -538,8 +540,8 @@ Qed.
 
 Lemma lmp_polls_const_box : forall b reads rd p step,
   Forall (fun c => cbox c = b) traj ->
-  lmp_polls fx ord left right rv traj code false reads rd [] [] p step =
-  lmp_polls fx ord left right rv traj code true reads rd [] [] p step.
+  lmp_polls fx ord left right rv traj code strict false reads rd [] [] p step =
+  lmp_polls fx ord left right rv traj code strict true reads rd [] [] p step.
 Proof.
   intros b. induction reads as [|[c alive] rest IH]; intros rd p step Hb; [reflexivity|].
   cbn [lmp_polls app].
@@ -551,10 +553,10 @@ Qed.
 
 Theorem lammps_original_const_box : forall b p0 dead reads,
   Forall (fun c => cbox c = b) traj ->
-  lammps_run fx ord left right rv traj code false p0 dead reads =
-  lammps_run fx ord left right rv traj code true p0 dead reads.
+  lammps_run fx ord left right rv traj code strict false p0 dead reads =
+  lammps_run fx ord left right rv traj code strict true p0 dead reads.
 Proof.
-  intros. unfold lammps_run. destruct (dead && negb (code =? 0)); [reflexivity|].
+  intros. unfold lammps_run. destruct (dead && exit_failed strict code); [reflexivity|].
   eapply lmp_polls_const_box; eassumption.
 Qed.
 
@@ -594,7 +596,7 @@ Definition reads_ok (reads : list (nat * nat * bool)) : Prop :=
 Lemma cp2k_polls_spec : forall reads rdp rdv p,
   reads_ok reads -> (rdp <= length traj)%nat -> (rdv <= length traj)%nat ->
   same_outcome
-    (cp2k_polls fx ord left right rv traj code box0 reads rdp rdv
+    (cp2k_polls fx ord left right rv traj code strict box0 reads rdp rdv
        (skipn (Nat.min rdp rdv) (firstn rdp (map cpos traj)))
        (skipn (Nat.min rdp rdv) (firstn rdv (map cvel traj))) p (Nat.min rdp rdv))
     (runf p (own_from (Nat.min rdp rdv)
@@ -669,7 +671,7 @@ Qed.
    visible, position k paired with velocity k *)
 Theorem cp2k_any_schedule : forall p0 reads,
   reads_ok reads ->
-  same_outcome (cp2k_run fx ord left right rv traj code box0 p0 false reads)
+  same_outcome (cp2k_run fx ord left right rv traj code strict box0 p0 false reads)
                (runf p0 (own_stream ord rv (map fixbox (firstn (Nat.min (pmax reads) (qmax reads)) traj)))).
 Proof.
   intros p0 reads HF. unfold cp2k_run. cbn [andb].
@@ -678,41 +680,42 @@ Proof.
 Qed.
 
 Lemma cp2k_polls_trunc : forall reads rdp rdv ps vs p step q st,
-  cp2k_polls fx ord left right rv traj code box0 reads rdp rdv ps vs p step = Trunc q st -> code = 0.
+  cp2k_polls fx ord left right rv traj code strict box0 reads rdp rdv ps vs p step = Trunc q st ->
+  exit_failed strict code = false.
 Proof.
   induction reads as [|[[cp cv] alive] rest IH]; intros rdp rdv ps vs p step q st H.
-  - cbn in H. unfold fell_through in H. destruct (Z.eqb_spec code 0); [assumption|discriminate].
+  - cbn in H. unfold fell_through in H. destruct (exit_failed strict code); [discriminate|reflexivity].
   - cbn [cp2k_polls] in H.
     destruct (cp2k_for _ _ _ _ _ _ _ _ _ _ _); try discriminate. eapply IH; exact H.
 Qed.
 
 Lemma cp2k_polls_pstate : forall reads rdp rdv ps vs p step,
-  pstate_of (cp2k_polls fx ord left right rv traj code box0 reads rdp rdv ps vs p step) <> Some PRunning.
+  pstate_of (cp2k_polls fx ord left right rv traj code strict box0 reads rdp rdv ps vs p step) <> Some PRunning.
 Proof.
   induction reads as [|[[cp cv] alive] rest IH]; intros rdp rdv ps vs p step.
-  - cbn. unfold fell_through. destruct (code =? 0); cbn; discriminate.
+  - cbn. unfold fell_through. destruct (exit_failed strict code); cbn; discriminate.
   - cbn [cp2k_polls].
     destruct (cp2k_for _ _ _ _ _ _ _ _ _ _ _); cbn; try discriminate; [|apply IH].
     destruct alive; cbn; discriminate.
 Qed.
 
 Theorem cp2k_failure_raises : forall p0 dead reads,
-  code <> 0 ->
-  match cp2k_run fx ord left right rv traj code box0 p0 dead reads with
+  exit_failed strict code = true ->
+  match cp2k_run fx ord left right rv traj code strict box0 p0 dead reads with
   | Trunc _ _ => False
   | _ => True
   end.
 Proof.
   intros p0 dead reads Hc.
-  destruct (cp2k_run fx ord left right rv traj code box0 p0 dead reads) eqn:E; auto.
-  unfold cp2k_run in E. destruct (dead && negb (code =? 0)); [discriminate|].
-  apply cp2k_polls_trunc in E. contradiction.
+  destruct (cp2k_run fx ord left right rv traj code strict box0 p0 dead reads) eqn:E; auto.
+  unfold cp2k_run in E. destruct (dead && exit_failed strict code); [discriminate|].
+  apply cp2k_polls_trunc in E. congruence.
 Qed.
 
 Theorem cp2k_terminated_at_end : forall p0 dead reads,
-  pstate_of (cp2k_run fx ord left right rv traj code box0 p0 dead reads) <> Some PRunning.
+  pstate_of (cp2k_run fx ord left right rv traj code strict box0 p0 dead reads) <> Some PRunning.
 Proof.
-  intros. unfold cp2k_run. destruct (dead && negb (code =? 0)); [cbn; discriminate|].
+  intros. unfold cp2k_run. destruct (dead && exit_failed strict code); [cbn; discriminate|].
   apply cp2k_polls_pstate.
 Qed.
 
@@ -768,8 +771,8 @@ Proof. reflexivity. Qed.
 Definition gres_ok (p : path) (i : nat) (rem : list conf) (r : poll_result) : Prop :=
   match r with
   | Ret p1 s _ => runf p (gstream_from i rem) = SStop p1 s
-  | Trunc p1 _ => code = 0 /\ exists n, runf p (gstream_from i (firstn n rem)) = SMore p1
-  | Raise p1 _ => code <> 0 /\ exists n, runf p (gstream_from i (firstn n rem)) = SMore p1
+  | Trunc p1 _ => exit_failed strict code = false /\ exists n, runf p (gstream_from i (firstn n rem)) = SMore p1
+  | Raise p1 _ => exit_failed strict code = true /\ exists n, runf p (gstream_from i (firstn n rem)) = SMore p1
   | IdxError => exists n, runf p (gstream_from i (firstn n rem)) = SErr
   | Hang _ => True
   end.
@@ -803,9 +806,9 @@ Proof.
   - exact I.
 Qed.
 
-(* gmx_consume_all is only called with code = 0 *)
+(* gmx_consume_all is only called when the failure test says "no failure" *)
 Lemma gmx_consume_all_ok : forall cs i p,
-  code = 0 -> gres_ok p i cs (gmx_consume_all fx ord left right rv code fixL3 cs i p).
+  exit_failed strict code = false -> gres_ok p i cs (gmx_consume_all fx ord left right rv code fixL3 cs i p).
 Proof.
   induction cs as [|c r IH]; intros i p Hc.
   - cbn. split; [exact Hc|]. exists 0%nat. reflexivity.
@@ -821,11 +824,11 @@ Proof.
 Qed.
 
 Lemma gmx_exit_ok : forall rem br i p,
-  gres_ok p i rem (gmx_exit fx ord left right rv code fixL3 hsz dsz final_size rem br i p).
+  gres_ok p i rem (gmx_exit fx ord left right rv code strict fixL3 hsz dsz final_size rem br i p).
 Proof.
-  intros rem br i p. unfold gmx_exit. destruct (Z.eqb_spec code 0) as [Hc|Hc]; cbn [negb].
-  - eapply gres_ok_prefix. apply gmx_consume_all_ok. exact Hc.
+  intros rem br i p. unfold gmx_exit. destruct (exit_failed strict code) eqn:Hc.
   - cbn [gres_ok]. split; [exact Hc|]. exists 0%nat. reflexivity.
+  - eapply gres_ok_prefix. apply gmx_consume_all_ok. exact Hc.
 Qed.
 
 (* one epoch of a running program *)
@@ -884,12 +887,12 @@ Proof.
 Qed.
 
 Lemma gmx_epochs_ok : forall eps rem ph br hs i p,
-  gres_ok p i rem (gmx_epochs fx ord left right rv code fixL3 fixL14 hsz dsz head0 final_size eps rem ph br hs i p).
+  gres_ok p i rem (gmx_epochs fx ord left right rv code strict fixL3 fixL14 hsz dsz head0 final_size eps rem ph br hs i p).
 Proof.
   induction eps as [|size rest IH]; intros rem ph br hs i p.
   - cbn [gmx_epochs]. destruct ph; [apply gmx_exit_ok|].
     destruct (br + dsz <=? final_size)%nat;
-      [|destruct fixL14; [|exact I]; unfold fell_through; destruct (Z.eqb_spec code 0) as [Hc|Hc];
+      [|destruct fixL14; [|exact I]; unfold fell_through; destruct (exit_failed strict code) eqn:Hc;
         cbn [gres_ok]; (split; [exact Hc|exists 0%nat; reflexivity])].
     destruct rem as [|c rem']; [exact I|].
     unfold gmx_consume.
@@ -913,18 +916,18 @@ Qed.
 (* main statement for the GROMACS TRR state machine: for ANY sequence of observed file sizes *)
 Theorem gromacs_any_schedule : forall p0 dead eps,
   gres_ok p0 0 traj
-    (gromacs_run fx ord left right rv traj code fixL3 fixL14 hsz dsz head0 final_size p0 dead eps).
+    (gromacs_run fx ord left right rv traj code strict fixL3 fixL14 hsz dsz head0 final_size p0 dead eps).
 Proof.
   intros p0 dead eps. unfold gromacs_run.
-  destruct (dead && negb (code =? 0)) eqn:E.
+  destruct (dead && exit_failed strict code) eqn:E.
   - cbn [gres_ok]. apply andb_true_iff in E. destruct E as [_ E].
-    apply negb_true_iff in E. apply Z.eqb_neq in E. split; [exact E|]. exists 0%nat. reflexivity.
+    split; [exact E|]. exists 0%nat. reflexivity.
   - apply gmx_epochs_ok.
 Qed.
 
 Theorem gromacs_returns_prefix : forall p0 dead eps p s ps,
   gmx_own_cond ->
-  gromacs_run fx ord left right rv traj code fixL3 fixL14 hsz dsz head0 final_size p0 dead eps = Ret p s ps ->
+  gromacs_run fx ord left right rv traj code strict fixL3 fixL14 hsz dsz head0 final_size p0 dead eps = Ret p s ps ->
   runf p0 (own_stream ord rv traj) = SStop p s.
 Proof.
   intros p0 dead eps p s ps Hown H.
@@ -933,16 +936,16 @@ Proof.
 Qed.
 
 Theorem gromacs_failure_raises : forall p0 dead eps,
-  code <> 0 ->
-  match gromacs_run fx ord left right rv traj code fixL3 fixL14 hsz dsz head0 final_size p0 dead eps with
+  exit_failed strict code = true ->
+  match gromacs_run fx ord left right rv traj code strict fixL3 fixL14 hsz dsz head0 final_size p0 dead eps with
   | Trunc _ _ => False
   | _ => True
   end.
 Proof.
   intros p0 dead eps Hc.
   pose proof (gromacs_any_schedule p0 dead eps) as G.
-  destruct (gromacs_run fx ord left right rv traj code fixL3 fixL14 hsz dsz head0 final_size p0 dead eps); auto.
-  cbn [gres_ok] in G. destruct G as [G _]. contradiction.
+  destruct (gromacs_run fx ord left right rv traj code strict fixL3 fixL14 hsz dsz head0 final_size p0 dead eps); auto.
+  cbn [gres_ok] in G. destruct G as [G _]. congruence.
 Qed.
 
 End GmxP.
@@ -984,23 +987,23 @@ End InprocP.
 End PollersP.
 
 (* ================================================================== CP2K, return form *)
-Lemma cp2k_run_dead : forall fx ord left right rv traj code box0 p0 reads,
-  cp2k_run fx ord left right rv traj code box0 p0 true reads =
-  if code =? 0 then cp2k_run fx ord left right rv traj code box0 p0 false reads
-  else Raise p0 (PExited code).
-Proof. intros. unfold cp2k_run. cbn [andb]. destruct (code =? 0); reflexivity. Qed.
+Lemma cp2k_run_dead : forall fx ord left right rv traj code strict box0 p0 reads,
+  cp2k_run fx ord left right rv traj code strict box0 p0 true reads =
+  if exit_failed strict code then Raise p0 (PExited code)
+  else cp2k_run fx ord left right rv traj code strict box0 p0 false reads.
+Proof. intros. unfold cp2k_run. cbn [andb]. destruct (exit_failed strict code); reflexivity. Qed.
 
-Theorem cp2k_returns_prefix : forall fx ord left right rv traj code box0 p0 dead reads p s ps,
+Theorem cp2k_returns_prefix : forall fx ord left right rv traj code strict box0 p0 dead reads p s ps,
   reads_ok traj reads ->
-  cp2k_run fx ord left right rv traj code box0 p0 dead reads = Ret p s ps ->
+  cp2k_run fx ord left right rv traj code strict box0 p0 dead reads = Ret p s ps ->
   run_frames fx left right p0 (own_stream ord rv (map (fixbox box0) traj)) = SStop p s.
 Proof.
-  intros fx ord left right rv traj code box0 p0 dead reads p s ps HF H.
-  assert (G : cp2k_run fx ord left right rv traj code box0 p0 false reads = Ret p s ps).
-  { destruct dead; [|exact H]. rewrite cp2k_run_dead in H. destruct (code =? 0); [exact H|discriminate]. }
-  pose proof (cp2k_any_schedule fx ord left right rv traj code box0 p0 reads HF) as O.
+  intros fx ord left right rv traj code strict box0 p0 dead reads p s ps HF H.
+  assert (G : cp2k_run fx ord left right rv traj code strict box0 p0 false reads = Ret p s ps).
+  { destruct dead; [|exact H]. rewrite cp2k_run_dead in H. destruct (exit_failed strict code); [discriminate|exact H]. }
+  pose proof (cp2k_any_schedule fx ord left right rv traj code strict box0 p0 reads HF) as O.
   rewrite <- firstn_map in O.
-  eapply (same_outcome_ret_full fx ord left right rv (map (fixbox box0) traj) code); [exact O|exact G].
+  eapply (same_outcome_ret_full fx ord left right rv (map (fixbox box0) traj) code strict); [exact O|exact G].
 Qed.
 
 (* ================================================================== frame k carries its own data *)
@@ -1092,9 +1095,9 @@ Qed.
    other's box: order parameter = the box tag, boxes 10 and 20, right interface 15 *)
 Theorem lammps_pop_last_refuted :
   exists ord left right traj reads p s ps,
-    lammps_run true ord left right false traj 0 false (empty_path 5 0) false reads = Ret p s ps /\
+    lammps_run true ord left right false traj 0 true false (empty_path 5 0) false reads = Ret p s ps /\
     run_frames true left right (empty_path 5 0) (own_stream ord false traj) <> SStop p s /\
-    lammps_run true ord left right false traj 0 true (empty_path 5 0) false reads <> Ret p s ps.
+    lammps_run true ord left right false traj 0 true true (empty_path 5 0) false reads <> Ret p s ps.
 Proof.
   exists (fun _ _ b => b), (-100), 15, [mkC 0 1 10; mkC 1 2 20], [(2%nat, true)].
   eexists. eexists. eexists. split; [vm_compute; reflexivity|]. split; vm_compute; discriminate.
@@ -1104,9 +1107,9 @@ Qed.
    the un-reversed file velocity *)
 Theorem gromacs_double_negation_refuted :
   exists ord left right traj eps p s ps,
-    gromacs_run true ord left right true traj 0 false false 10 20 10 60 (empty_path 2 0) false eps = Ret p s ps /\
+    gromacs_run true ord left right true traj 0 true false false 10 20 10 60 (empty_path 2 0) false eps = Ret p s ps /\
     run_frames true left right (empty_path 2 0) (own_stream ord true traj) <> SStop p s /\
-    gromacs_run true ord left right true traj 0 true false 10 20 10 60 (empty_path 2 0) false eps <> Ret p s ps.
+    gromacs_run true ord left right true traj 0 true true false 10 20 10 60 (empty_path 2 0) false eps <> Ret p s ps.
 Proof.
   exists (fun _ v _ => v), (-5), 0, [mkC 0 1 0; mkC 1 1 0], [60%nat].
   eexists. eexists. eexists. split; [vm_compute; reflexivity|]. split; vm_compute; discriminate.
@@ -1117,11 +1120,115 @@ Qed.
    repaired one raises *)
 Theorem gromacs_midframe_crash_refuted :
   exists ord left right traj eps p,
-    gromacs_run true ord left right false traj 1 true false 10 20 10 45 (empty_path 5 0) false eps = Hang p /\
-    gromacs_run true ord left right false traj 1 true true 10 20 10 45 (empty_path 5 0) false eps = Raise p (PExited 1).
+    gromacs_run true ord left right false traj 1 true true false 10 20 10 45 (empty_path 5 0) false eps = Hang p /\
+    gromacs_run true ord left right false traj 1 true true true 10 20 10 45 (empty_path 5 0) false eps = Raise p (PExited 1).
 Proof.
   exists (fun p _ _ => p), (-5), 50, [mkC 0 1 0], [30%nat; 45%nat].
   eexists. split; vm_compute; reflexivity.
+Qed.
+
+(* ================================================================== the failure test on the return code *)
+(* the test of /repo ([strict = true], `!= 0`) is exactly "the return code is not 0" ... *)
+Lemma exit_failed_strict : forall code, exit_failed true code = true <-> code <> 0.
+Proof.
+  intros code. unfold exit_failed. rewrite negb_true_iff. split.
+  - intros H. apply Z.eqb_neq. exact H.
+  - intros H. apply Z.eqb_neq. exact H.
+Qed.
+
+(* ... in particular a NEGATIVE return code (subprocess: the program was killed by signal -code)
+   is a failure, which the variant `> 0` takes for a clean exit *)
+Lemma exit_failed_signal : forall code, code < 0 ->
+  exit_failed true code = true /\ exit_failed false code = false.
+Proof.
+  intros code H. split.
+  - apply exit_failed_strict. lia.
+  - unfold exit_failed. apply Z.ltb_ge. lia.
+Qed.
+
+(* the two tests agree on every return code of a program that EXITED (status >= 0) *)
+Lemma exit_failed_nonneg : forall code, 0 <= code -> exit_failed false code = exit_failed true code.
+Proof.
+  intros code H. unfold exit_failed.
+  destruct (Z.eqb_spec code 0) as [->|Hn]; [reflexivity|]. cbn [negb]. apply Z.ltb_lt. lia.
+Qed.
+
+(* failure => raise, with the test as it is, for every non-zero return code *)
+Theorem lammps_failure_raises_strict : forall fx ord left right rv traj code fixL2 p0 dead reads,
+  code <> 0 ->
+  match lammps_run fx ord left right rv traj code true fixL2 p0 dead reads with
+  | Trunc _ _ => False
+  | _ => True
+  end.
+Proof. intros. apply lammps_failure_raises. apply exit_failed_strict. assumption. Qed.
+
+Theorem cp2k_failure_raises_strict : forall fx ord left right rv traj code box0 p0 dead reads,
+  code <> 0 ->
+  match cp2k_run fx ord left right rv traj code true box0 p0 dead reads with
+  | Trunc _ _ => False
+  | _ => True
+  end.
+Proof. intros. apply cp2k_failure_raises. apply exit_failed_strict. assumption. Qed.
+
+Theorem gromacs_failure_raises_strict : forall fx ord left right rv traj code fixL3 fixL14 hsz dsz head0 final_size p0 dead eps,
+  code <> 0 ->
+  match gromacs_run fx ord left right rv traj code true fixL3 fixL14 hsz dsz head0 final_size p0 dead eps with
+  | Trunc _ _ => False
+  | _ => True
+  end.
+Proof. intros. apply gromacs_failure_raises. apply exit_failed_strict. assumption. Qed.
+
+(* death by signal (negative return code), all three external engines at once *)
+Theorem signal_death_raises : forall fx ord left right rv traj code, code < 0 ->
+  (forall fixL2 p0 dead reads,
+     match lammps_run fx ord left right rv traj code true fixL2 p0 dead reads with Trunc _ _ => False | _ => True end) /\
+  (forall box0 p0 dead reads,
+     match cp2k_run fx ord left right rv traj code true box0 p0 dead reads with Trunc _ _ => False | _ => True end) /\
+  (forall fixL3 fixL14 hsz dsz head0 final_size p0 dead eps,
+     match gromacs_run fx ord left right rv traj code true fixL3 fixL14 hsz dsz head0 final_size p0 dead eps with
+     | Trunc _ _ => False | _ => True end).
+Proof.
+  intros fx ord left right rv traj code Hc.
+  assert (Hn : code <> 0) by lia.
+  split; [|split]; intros.
+  - apply lammps_failure_raises_strict; exact Hn.
+  - apply cp2k_failure_raises_strict; exact Hn.
+  - apply gromacs_failure_raises_strict; exact Hn.
+Qed.
+
+(* the variant `> 0` of the test is refuted for each engine: the program is killed by SIGKILL
+   (return code -9) after writing frames among which the stop rule never fires; the variant
+   returns normally with that truncated path (Trunc), the test as it is raises *)
+Theorem gromacs_signal_death_gt0_refuted :
+  exists ord left right traj eps p,
+    run_frames true left right (empty_path 9 0) (own_stream ord false traj) = SMore p /\
+    gromacs_run true ord left right false traj (-9) false true true 10 20 10 90 (empty_path 9 0) false eps
+      = Trunc p (PExited (-9)) /\
+    gromacs_run true ord left right false traj (-9) true true true 10 20 10 90 (empty_path 9 0) false eps
+      = Raise p (PExited (-9)).
+Proof.
+  exists (fun p _ _ => p), (-5), 50, [mkC 0 1 0; mkC 1 1 0; mkC 2 1 0], [90%nat].
+  eexists. split; [vm_compute; reflexivity|]. split; vm_compute; reflexivity.
+Qed.
+
+Theorem lammps_signal_death_gt0_refuted :
+  exists ord left right traj reads p,
+    run_frames true left right (empty_path 9 0) (own_stream ord false traj) = SMore p /\
+    lammps_run true ord left right false traj (-9) false true (empty_path 9 0) false reads = Trunc p (PExited (-9)) /\
+    lammps_run true ord left right false traj (-9) true true (empty_path 9 0) false reads = Raise p (PExited (-9)).
+Proof.
+  exists (fun p _ _ => p), (-5), 50, [mkC 0 1 10; mkC 1 2 10], [(2%nat, true); (2%nat, false)].
+  eexists. split; [vm_compute; reflexivity|]. split; vm_compute; reflexivity.
+Qed.
+
+Theorem cp2k_signal_death_gt0_refuted :
+  exists ord left right traj reads p,
+    run_frames true left right (empty_path 9 0) (own_stream ord false (map (fixbox 7) traj)) = SMore p /\
+    cp2k_run true ord left right false traj (-9) false 7 (empty_path 9 0) false reads = Trunc p (PExited (-9)) /\
+    cp2k_run true ord left right false traj (-9) true 7 (empty_path 9 0) false reads = Raise p (PExited (-9)).
+Proof.
+  exists (fun p _ _ => p), (-5), 50, [mkC 0 1 7; mkC 1 2 7], [(2%nat, 2%nat, true); (2%nat, 2%nat, false)].
+  eexists. split; [vm_compute; reflexivity|]. split; vm_compute; reflexivity.
 Qed.
 
 (* ================================================================== process groups *)
